@@ -162,7 +162,54 @@ func (t *Term) SInt() *big.Int {
 	return v
 }
 
+// case facts: literals known true/false in the current case of a split (execution-level case analysis)
+var knownTrue = map[int]bool{}
+var knownFalse = map[int]bool{}
+
+func clearFacts() {
+	knownTrue = map[int]bool{}
+	knownFalse = map[int]bool{}
+	selectCache = map[[2]int]*Term{}
+}
+
+func setFact(t *Term) {
+	selectCache = map[[2]int]*Term{}
+	if t.Op == "and" {
+		for _, a := range t.Args {
+			setFact(a)
+		}
+		return
+	}
+	if t.Op == "not" {
+		knownFalse[t.Args[0].id] = true
+		return
+	}
+	if t.Op == "true" || t.Op == "false" {
+		return
+	}
+	knownTrue[t.id] = true
+}
+
+func factOf(t *Term) int {
+	if len(knownTrue) == 0 && len(knownFalse) == 0 {
+		return 0
+	}
+	if knownTrue[t.id] {
+		return 1
+	}
+	if knownFalse[t.id] {
+		return -1
+	}
+	return 0
+}
+
 func Not(a *Term) *Term {
+	switch factOf(a) {
+	case 1:
+		return False()
+	case -1:
+		return True()
+	}
 	if a.IsTrue() {
 		return False()
 	}
@@ -179,6 +226,12 @@ func nary(op string, unit, zero *Term, args []*Term) *Term {
 	var out []*Term
 	seen := map[int]bool{}
 	for _, a := range args {
+		if f := factOf(a); f != 0 {
+			if (f == 1) == (op == "and") {
+				continue // evaluates to the unit
+			}
+			return zero
+		}
 		if a == zero {
 			return zero
 		}
@@ -376,6 +429,12 @@ func Implies(a, b *Term) *Term {
 }
 
 func Ite(c, a, b *Term) *Term {
+	switch factOf(c) {
+	case 1:
+		return a
+	case -1:
+		return b
+	}
 	if c.IsTrue() {
 		return a
 	}
@@ -426,6 +485,9 @@ func linear(t *Term) (*Term, *big.Int) {
 	if t.Op == "const" {
 		return nil, t.Val
 	}
+	if t.Op == "concat" && t.Args[1].Op == "const" && t.Args[1].Val.Sign() != 0 {
+		return Concat(t.Args[0], BV(0, t.Args[1].S.W)), t.Args[1].Val
+	}
 	if t.Op == "bvadd" && len(t.Args) == 2 {
 		if t.Args[1].Op == "const" {
 			b, c := linear(t.Args[0])
@@ -466,12 +528,38 @@ func knownDistinct(a, b *Term) bool {
 	if ba == bb && ca.Cmp(cb) != 0 {
 		return true
 	}
-	// block-id convention: variables named blk!* are >= 0x10000, constants below
-	if a.Op == "const" && b.Op == "var" && strings.HasPrefix(b.Name, "blk!") && a.Val.Cmp(big.NewInt(0x10000)) < 0 && a.Val.Sign() != 0 {
-		return true
+	if a.S.W == 32 {
+		if blkDistinct(a, b) || blkDistinct(b, a) {
+			return true
+		}
 	}
-	if b.Op == "const" && a.Op == "var" && strings.HasPrefix(a.Name, "blk!") && b.Val.Cmp(big.NewInt(0x10000)) < 0 && b.Val.Sign() != 0 {
-		return true
+	return false
+}
+
+// block-id conventions: root blocks are multiples of 16; (root + tag) with tag < 16 are its sub-blocks.
+// locals < 0x40000, spec temporaries in [0x40000, 0x80000), globals in [0x80000, 0x100000), parameters
+// (variables named blk!*) >= 0x100000.
+func blkDistinct(a, b *Term) bool {
+	isParam := func(t *Term) (bool, *big.Int) {
+		base, c := linear(t)
+		if base != nil && base.Op == "var" && strings.HasPrefix(base.Name, "blk!") && c.Cmp(big.NewInt(16)) < 0 {
+			return true, c
+		}
+		return false, nil
+	}
+	if a.Op == "const" && a.Val.Sign() != 0 {
+		// spec temporaries never escape: no symbolic block value denotes them
+		if b.Op != "const" && a.Val.Cmp(big.NewInt(0x40000)) >= 0 && a.Val.Cmp(big.NewInt(0x80000)) < 0 {
+			return true
+		}
+		if ok, _ := isParam(b); ok && a.Val.Cmp(big.NewInt(0x100000)) < 0 {
+			return true
+		}
+	}
+	pa, ca := isParam(a)
+	pb, cb := isParam(b)
+	if pa && pb && ca.Cmp(cb) != 0 {
+		return true // different sub-block tags
 	}
 	return false
 }
@@ -539,6 +627,22 @@ func BVAdd(a, b *Term) *Term {
 	}
 	if isZero(b) {
 		return a
+	}
+	// structured offsets: concat(hi, lo) + c stays a concat when the low part absorbs c without carry
+	if b.Op == "const" && a.Op == "concat" && a.Args[1].Op == "const" {
+		// exact: split the sum of the low part and the constant into carry-into-high and new low part
+		lw := a.Args[1].S.W
+		sum := new(big.Int).Add(a.Args[1].Val, b.Val)
+		carry := new(big.Int).Rsh(sum, uint(lw))
+		low := new(big.Int).And(sum, mask(lw))
+		return Concat(BVAdd(a.Args[0], BVBig(carry, a.Args[0].S.W)), BVBig(low, lw))
+	}
+	// a + (b + c) with c constant: keep constants outermost
+	if b.Op == "bvadd" && b.Args[1].Op == "const" && a.Op != "const" {
+		return BVAdd(BVAdd(a, b.Args[0]), b.Args[1])
+	}
+	if a.Op == "const" && b.Op == "concat" && b.Args[1].Op == "const" {
+		return BVAdd(b, a)
 	}
 	// normalise (x + c1) + c2
 	if b.Op == "const" && a.Op == "bvadd" && a.Args[1].Op == "const" {
@@ -681,12 +785,41 @@ func Extract(hi, lo int, a *Term) *Term {
 		v := new(big.Int).Rsh(a.Val, uint(lo))
 		return BVBig(v, hi-lo+1)
 	}
+	if a.Op == "concat" {
+		lw := a.Args[1].S.W
+		if lo >= lw {
+			return Extract(hi-lw, lo-lw, a.Args[0])
+		}
+		if hi < lw {
+			return Extract(hi, lo, a.Args[1])
+		}
+	}
+	if a.Op == "extract" {
+		return Extract(hi+a.J, lo+a.J, a.Args[0])
+	}
+	// low-bit extraction distributes over addition
+	if lo == 0 && a.Op == "bvadd" && len(a.Args) == 2 {
+		return BVAdd(Extract(hi, 0, a.Args[0]), Extract(hi, 0, a.Args[1]))
+	}
 	// extract of zext/sext where we stay within original
 	if (a.Op == "zext" || a.Op == "sext") && hi < a.Args[0].S.W {
 		return Extract(hi, lo, a.Args[0])
 	}
 	return intern(&Term{Op: "extract", Args: []*Term{a}, S: BVS(hi - lo + 1), I: hi, J: lo})
 }
+func Concat(hi, lo *Term) *Term {
+	if hi.Op == "const" && lo.Op == "const" {
+		v := new(big.Int).Lsh(hi.Val, uint(lo.S.W))
+		v.Or(v, lo.Val)
+		return BVBig(v, hi.S.W+lo.S.W)
+	}
+	// concat(extract(h..k, x), extract(k-1..l, x)) = extract(h..l, x)
+	if hi.Op == "extract" && lo.Op == "extract" && hi.Args[0] == lo.Args[0] && hi.J == lo.I+1 {
+		return Extract(hi.I, lo.J, hi.Args[0])
+	}
+	return intern(&Term{Op: "concat", Args: []*Term{hi, lo}, S: BVS(hi.S.W + lo.S.W)})
+}
+
 func ZExt(a *Term, w int) *Term {
 	if w == a.S.W {
 		return a
@@ -894,6 +1027,8 @@ func rebuild(t *Term, a []*Term) *Term {
 		return ZExt(a[0], t.S.W)
 	case "sext":
 		return SExt(a[0], t.S.W)
+	case "concat":
+		return Concat(a[0], a[1])
 	case "select":
 		return Select(a[0], a[1])
 	case "store":
